@@ -33,9 +33,10 @@ func oracleC07(ctx *progCtx) {
 		return
 	}
 	type snapshot map[string]string // "target/file" -> text
+	targets := ctx.Job.Targets
 	generateAll := func(an *analysis.Analysis, root string) snapshot {
 		out := snapshot{}
-		for _, t := range ctx.Job.Targets {
+		for _, t := range targets {
 			switch t {
 			case "dart":
 				res := drive.GenerateDart(root, []*analysis.Analysis{an})
@@ -99,6 +100,23 @@ func oracleC07(ctx *progCtx) {
 	first := generateAll(ctx.An, ctx.L.Root)
 	for key, txt := range first {
 		w.Emit(drive.Record{Prog: id, Kind: "c07hash", Key: key, Hash: drive.Hash(txt)})
+	}
+	// (a0) the SAME analysis generated a second time, after every target has run once on it
+	// (a generator must not leave anything behind on the shared analysis nodes), then the
+	// targets in reverse order on a fresh analysis
+	compare("same-analysis-again", first, generateAll(ctx.An, ctx.L.Root))
+	{
+		var an *analysis.Analysis
+		if oc := drive.Guard(func() { an = analysis.NewAnalysisFromFile(ctx.Pkg, ctx.L.Ref.Sources[0]) }); oc.OK {
+			rev := append([]string(nil), targets...)
+			for i, j := 0, len(rev)-1; i < j; i, j = i+1, j-1 {
+				rev[i], rev[j] = rev[j], rev[i]
+			}
+			saved := targets
+			targets = rev
+			compare("targets-in-reverse-order", first, generateAll(an, ctx.L.Root))
+			targets = saved
+		}
 	}
 	// (a) same loaded package, fresh analysis each time
 	for i := 1; i < K; i++ {
@@ -170,6 +188,7 @@ func checkC07(cfg *core.Config) int {
 	progs = append(progs, sqlProgs(cfg.Seed, cfg.Pick(6, 60))...)
 	progs = append(progs, routeProgs(cfg.Seed, cfg.Pick(4, 40))...)
 	progs = append(progs, pinnedPrograms("C07")...)
+	progs = append(progs, staticPrograms("C07")...)
 	pl := NewPipeline(cfg, rep, progs, true)
 	defer pl.Close()
 
